@@ -138,15 +138,17 @@ class Run(object):
         return q.name
 
 
-def two_senders(sx, count, first, sweep):
+def two_senders(sx, count, first, sweep, late=False):
     """count: messages per sender; first: which sender starts; sweep: 'one' =
     the link moves one PDU per direction between scheduling points, 'all' =
-    everything that is queued"""
+    everything that is queued; late: the second sender makes its first call
+    at some later scheduling point (e.g. between the acknowledgement that
+    wakes the first sender and the moment that sender runs again)"""
     prev = tco.threading
     tco.threading = coop.THREADING
     S = coop.new_threaded(sx)
     try:
-        return _two_senders(sx, S, count, first, sweep)
+        return _two_senders(sx, S, count, first, sweep, late)
     finally:
         S.current = 'setup'
         S.shutdown()
@@ -154,7 +156,7 @@ def two_senders(sx, count, first, sweep):
         coop.new_sched(sx)
 
 
-def _two_senders(sx, S, count, first, sweep):
+def _two_senders(sx, S, count, first, sweep, late=False):
     rw = sx.int("rw", 1, 3)
     s0 = sx.int("s0", 0, 15)
     r0 = sx.int("r0", 0, 15)
@@ -178,6 +180,9 @@ def _two_senders(sx, S, count, first, sweep):
     S.spawn('T2', run.sender('T2', count))
     S.current = 'link'
     order = ['T1', 'T2'] if first == 'T1' else ['T2', 'T1']
+    unstarted = []
+    if late:
+        unstarted.append(order.pop())
     for name in order:
         if S.run(name) != 'parked':
             sx.check(False, "coop:send-did-not-wait-on-full-window")
@@ -191,6 +196,11 @@ def _two_senders(sx, S, count, first, sweep):
             n = 0
             if run.a_to_b():
                 n += 1
+            if sweep == 'burst':
+                # everything A has queued crosses before the peer's
+                # application reads and the peer answers
+                while run.a_to_b():
+                    n += 1
             n += run.b_recv()
             if run.b_to_a():
                 n += 1
@@ -200,12 +210,19 @@ def _two_senders(sx, S, count, first, sweep):
         # the senders that were notified, in every order
         while True:
             ready = S.runnable()
+            if unstarted and (ready or not moved):
+                # the late sender may make its first call now
+                if ready:
+                    sx.reach("coop:late-sender-races-woken-sender")
+                ready = ready + unstarted
             if not ready:
                 break
             if len(ready) > 1:
                 sx.reach("coop:two-senders-runnable")
             name = sx.pick("sched%d" % len(sched), ready)
             sched.append(name)
+            if name in unstarted:
+                unstarted.remove(name)
             st = S.run(name)
             moved += 1
             rec = S.threads[name]
@@ -238,16 +255,21 @@ def partitions(tier):
     counts = [1, 2] if tier == "quick" else [1, 2, 3]
     for count in counts:
         for first in ("T1", "T2"):
-            for sweep in ("one", "all"):
+            for sweep in ("one", "all", "burst"):
                 parts.append(dict(
                     name="two_senders:%d:%s:%s" % (count, first, sweep),
                     fn="two_senders",
                     params=dict(count=count, first=first, sweep=sweep)))
+                if first == "T1":
+                    parts.append(dict(
+                        name="two_senders:%d:late:%s" % (count, sweep),
+                        fn="two_senders",
+                        params=dict(count=count, first=first, sweep=sweep, late=True)))
     return parts
 
 
-MUST_REACH = ["coop:both-senders-wait-on-full-window", "coop:wire:I",
+MUST_REACH = ["coop:both-senders-wait-on-full-window", "coop:late-sender-races-woken-sender", "coop:wire:I",
               "coop:wire:ack", "coop:senders-returned", "coop:drained"]
-BOUNDS = "two application threads in blocking send() on one established DataLinkConnection whose send window (RW of the peer symbolic 1..3, initial sequence variables of both directions symbolic 0..15) was filled by non-blocking sends; 1-2 (quick) / 1-3 (thorough) two-octet messages per thread; schedules: which thread blocks first, which notified thread runs next at every wake-up, link transfers one PDU per direction or everything queued between scheduling points; a thread is descheduled only where it blocks in Condition.wait() (preemption bound 0)"
+BOUNDS = "two application threads in blocking send() on one established DataLinkConnection whose send window (RW of the peer symbolic 1..3, initial sequence variables of both directions symbolic 0..15) was filled by non-blocking sends; 1-2 (quick) / 1-3 (thorough) two-octet messages per thread; schedules: which thread blocks first (or: the second thread makes its first call at any later scheduling point, racing a sender that was just woken), which notified thread runs next at every wake-up, link transfers one PDU per direction, everything queued in alternation, or everything the sender has queued before the peer reads and answers, between scheduling points; a thread is descheduled only where it blocks in Condition.wait() (preemption bound 0)"
 OUTSIDE = ["preemption of a sender anywhere but at Condition.wait() (lock acquisitions, single lines); more than two senders; blocking recv()/close() racing the senders; the link run loop interleaved with a sender that is not blocked"]
 ASSUMPTIONS = ["env.coop.ThreadSched: application threads are OS threads in strict alternation with the harness's main thread (link + peer application + scheduler); Condition.notify(n) wakes the first n waiters in FIFO order as threading.Condition does; no spurious wake-ups"]
